@@ -374,6 +374,14 @@ func genC14(c *Ctx) {
 			}
 		}
 	}
+	// chains that start from a text parsed inside the query: the text is YAML / JSON with lists that mix scalars and mappings
+	for _, doc := range []string{"steps: [checkout, {run: make}]\nname: x\n", "steps:\n  - ~\n  - run: make\n    env: {A: b}\n", "a: [1, [2, {b: c}], {d: [e, {f: g}]}]\n", "k: v\n"} {
+		rc := c14Recv{T: "String", IO: "Single", ty: &CTy{T: "string"}, data: tvStr(doc)}
+		for _, tail := range [][]c14Call{{mkCall("ParseYAML", nil), mkCall("AsJSON", nil)}, {mkCall("ParseYAML", nil), mkCall("AsJSON", nil), mkCall("Contains", []string{`"run"`})},
+			{mkCall("ParseYAML", nil), mkCall("AsJSON", nil), mkCall("Left", []string{"3"})}, {mkCall("ParseYAML", nil), mkCall("IsNull", nil)}, {mkCall("ParseYAML", nil), mkCall("RemoveKeysByPrefix", []string{`"n"`}), mkCall("AsJSON", nil)}} {
+			run(rc, tail, "chain/from-parsed-text", true)
+		}
+	}
 	// an unknown function name parses (IsInvalid) and must be rejected
 	for _, rc := range recvs {
 		run(rc, []c14Call{{N: "NoSuchFunction", K: 0, q: "NoSuchFunction()"}}, "single/unknown", false)
